@@ -11,6 +11,7 @@ cp $WT/seed/demo_test.go $DST/demo_test.go.txt 2>/dev/null
 cd $WT && git checkout -q -- . && rm -f ${DEMO_DIR:-pkg}/zz_demo_test.go
 rm -rf /tmp/seed-hold-$NAME && mv $WT/seed /tmp/seed-hold-$NAME   # keep the demo out of ./...
 trap "mv /tmp/seed-hold-$NAME $WT/seed 2>/dev/null" EXIT
+git clean -fdq   # files added by the patch the author left applied
 echo "== clean tree: demo must pass"
 cp $DST/demo_test.go.txt ${DEMO_DIR:-pkg}/zz_demo_test.go
 go test -vet=off -count=1 -run . ./${DEMO_DIR:-pkg}/ 2>&1 | tail -3; CLEAN=${PIPESTATUS[0]}
@@ -22,12 +23,12 @@ go test -vet=off -count=1 ./... 2>&1 | grep -v "no test files" | grep -v "^ok" ;
 cp $DST/demo_test.go.txt ${DEMO_DIR:-pkg}/zz_demo_test.go
 go test -vet=off -count=1 -run . ./${DEMO_DIR:-pkg}/ 2>&1 | tail -4; DEMO=${PIPESTATUS[0]}
 rm -f ${DEMO_DIR:-pkg}/zz_demo_test.go
-git checkout -q -- .
+git apply -R $DST/patch.diff
 echo "clean_demo_rc=$CLEAN suite_rc=$SUITE patched_demo_rc=$DEMO"
 echo "== quick check in /repo with the patch"
 cd /repo && git status --short | grep -v '^??' && { echo "/repo not clean"; exit 4; }
 git apply $DST/patch.diff || { echo "PATCH DOES NOT APPLY TO /repo HEAD"; exit 3; }
 cd /verif && ./check $ID quick > $DST/quick_output.txt 2>&1; RC=$?
-git -C /repo checkout -- .
+git -C /repo apply -R $DST/patch.diff || git -C /repo checkout -- .
 head -12 $DST/quick_output.txt | cut -c1-400
 echo "quick_check_rc=$RC"
